@@ -506,7 +506,10 @@ class TextXVisitor(RRELVisitor):
             if rule.rule_name and cls.__name__ != rule.rule_name:
                 # Special case. Body of the rule is a single rule reference and
                 # the referenced rule is not match rule.
-                target_cls = metamodel[rule.rule_name]
+                # The class of the referenced rule (not a lookup by name which
+                # would search the namespace of the grammar being built even
+                # if this rule belongs to an imported grammar).
+                target_cls = rule._tx_class
                 _determine_rule_type(target_cls)
                 abstract = target_cls._tx_type != RULE_MATCH
             else:
